@@ -457,10 +457,174 @@ class Gen:
     return "\n".join(self.lines) + "\n"
 
 
+# -- gadgets: constructs with a dedicated oracle-relevant bug class, woven into the generated program --------------
+# They draw from their own random stream (derived from the generator state without consuming it) and only add
+# self-contained top-level statements, so the base program of a given seed stays what it was.
+
+GADGET_LITS = ["1", "'x'", "2.5", "None", "b'z'", "True", "(3,)", "[4]", "{'k': 5}", "{6}"]
+
+
+class Gadgets:
+  def __init__(self, r2):
+    self.r = r2
+    self.n = 0
+    self.head = []         # definitions, placed at the top of the module
+    self.stmts = []        # statements, inserted at random top-level positions (order preserved)
+    self.calls = []
+
+  def fresh(self, p):
+    self.n += 1
+    return "%s%d" % (p, self.n)
+
+  def two_lits(self):
+    a = self.r.choice(GADGET_LITS)
+    b = self.r.choice([x for x in GADGET_LITS if x != a])
+    return a, b
+
+  # (a) truthiness of user classes: __bool__/__len__ on the class, the first base, the SECOND base, through a
+  #     diamond, absent (always truthy), and subclasses of builtins (empty vs non-empty)
+  def truthiness(self):
+    r = self.r
+    t = self.fresh("T")
+    falsy = r.random() < 0.6
+    dunder = r.choice(["__len__", "__bool__"])
+    ret = ("0" if falsy else "1") if dunder == "__len__" else ("False" if falsy else "True")
+    carrier = ["class %sS:" % t, "  def %s(self):" % dunder, "    return %s" % ret]
+    plain = ["class %sN:" % t, "  def name(self):", "    return 'n'"]
+    shape = r.choice(["own", "first", "second", "second", "diamond", "diamond", "none", "list", "dict"])
+    ctor = "%s()" % t
+    if shape == "own":
+      self.head += ["class %s:" % t, "  def %s(self):" % dunder, "    return %s" % ret]
+    elif shape == "first":
+      self.head += carrier + plain + ["class %s(%sS, %sN):" % (t, t, t), "  pass"]
+    elif shape == "second":
+      self.head += carrier + plain + ["class %s(%sN, %sS):" % (t, t, t), "  pass"]
+    elif shape == "diamond":
+      self.head += ["class %sB:" % t, "  pass", "class %sL(%sB):" % (t, t), "  pass",
+                    "class %sR(%sB):" % (t, t), "  def %s(self):" % dunder, "    return %s" % ret,
+                    "class %s(%sL, %sR):" % (t, t, t), "  pass"]
+    elif shape == "none":
+      self.head += ["class %s:" % t, "  pass"]
+    elif shape == "list":
+      self.head += ["class %s(list):" % t, "  pass"]
+      ctor = r.choice(["%s()" % t, "%s([1])" % t])
+    else:
+      self.head += ["class %s(dict):" % t, "  pass"]
+      ctor = r.choice(["%s()" % t, "%s(a=1)" % t])
+    for _ in range(r.randint(2, 4)):
+      x = self.fresh("tv")
+      a, b = self.two_lits()
+      obj = ctor
+      if r.random() < 0.4:
+        o = self.fresh("to")
+        self.stmts.append("%s = %s" % (o, ctor))
+        obj = o
+      c = r.randrange(7)
+      if c == 0:
+        self.stmts.append("%s = %s or %s" % (x, obj, a))
+      elif c == 1:
+        self.stmts.append("%s = %s and %s" % (x, obj, a))
+      elif c == 2:
+        self.stmts.append("if %s:\n  %s = %s\nelse:\n  %s = %s" % (obj, x, a, x, b))
+      elif c == 3:
+        self.stmts.append("%s = %s if %s else %s" % (x, a, obj, b))
+      elif c == 4:
+        self.stmts.append("%s = %s if not %s else %s" % (x, a, obj, b))
+      elif c == 5:
+        f = self.fresh("tf")
+        self.head += ["def %s(x, y):" % f, "  return x %s y" % r.choice(["or", "and"])]
+        self.stmts.append("%s = %s(%s, %s)" % (x, f, obj, a))
+        self.calls.append((x, "func", f))
+      else:
+        self.stmts.append("if not %s:\n  %s = %s\nelif %s:\n  %s = %s\nelse:\n  %s = None" % (obj, x, a, obj, x, b, x))
+
+  # (b) repeated calls of one function / method on a straight-line path with arguments that are equal as
+  #     multisets but differ in order or nesting; the result depends on the position
+  def permuted_calls(self):
+    r = self.r
+    f = self.fresh("sel")
+    kind = r.choice(["tuple", "tuple", "list", "dict", "kw", "default", "method", "nested", "unpack"])
+    k = r.choice([2, 2, 3])
+    lits = r.sample(GADGET_LITS[:6], k)
+    perms = [list(lits), list(reversed(lits))]
+    if k == 3:
+      perms.append([lits[1], lits[0], lits[2]])
+    pick = r.choice(["[0]", "[-1]", "[1]"])
+    def emit(callsrc, rec):
+      x = self.fresh("tr")
+      self.stmts.append("%s = %s" % (x, callsrc))
+      self.calls.append((x,) + rec)
+    if kind in ("tuple", "list"):
+      self.head += ["def %s(t):" % f, "  return t%s" % pick]
+      for q in perms:
+        lit = "(%s)" % ", ".join(q) if kind == "tuple" else "[%s]" % ", ".join(q)
+        emit("%s(%s)" % (f, lit), ("func", f))
+    elif kind == "unpack":
+      names = ["a%d" % i for i in range(k)]
+      self.head += ["def %s(t):" % f, "  %s = t" % ", ".join(names), "  return %s" % r.choice(names)]
+      for q in perms:
+        emit("%s((%s))" % (f, ", ".join(q)), ("func", f))
+    elif kind == "nested":
+      self.head += ["def %s(t):" % f, "  return t[0]"]
+      a, b = lits[0], lits[1]
+      for lit in ("((%s,), %s)" % (a, b), "(%s, (%s,))" % (b, a), "((%s,), %s)" % (b, a)):
+        emit("%s(%s)" % (f, lit), ("func", f))
+    elif kind == "dict":
+      self.head += ["def %s(d):" % f, "  return d['p']"]
+      a, b = lits[0], lits[1]
+      for lit in ("{'p': %s, 'q': %s}" % (a, b), "{'q': %s, 'p': %s}" % (a, b), "{'p': %s, 'q': %s}" % (b, a)):
+        emit("%s(%s)" % (f, lit), ("func", f))
+    elif kind == "kw":
+      self.head += ["def %s(a, b):" % f, "  return a"]
+      a, b = lits[0], lits[1]
+      for args in ("a=%s, b=%s" % (a, b), "b=%s, a=%s" % (a, b), "%s, %s" % (b, a)):
+        emit("%s(%s)" % (f, args), ("func", f))
+    elif kind == "default":
+      a, b = lits[0], lits[1]
+      self.head += ["def %s(t=(%s, %s)):" % (f, a, b), "  return t%s" % r.choice(["[0]", "[-1]"])]
+      for args in ("", "(%s, %s)" % (b, a), "(%s, %s)" % (a, b)):
+        emit("%s(%s)" % (f, args), ("func", f))
+    else:
+      c = self.fresh("P")
+      o = self.fresh("tp")
+      self.head += ["class %s:" % c, "  def pick(self, pair):", "    return pair%s" % pick]
+      self.stmts.append("%s = %s()" % (o, c))
+      for q in perms:
+        emit("%s.pick((%s))" % (o, ", ".join(q)), ("method", o, "pick"))
+
+
+def weave(src, gad, r2):
+  """definitions first, statements at random top-level statement boundaries (relative order kept)"""
+  lines = src.rstrip("\n").split("\n")
+  cuts = [i for i, l in enumerate(lines) if l and not l[0].isspace()
+          and not l.startswith(("else", "elif", "except", "finally"))] + [len(lines)]
+  where = sorted(r2.choice(cuts) for _ in gad.stmts)
+  out = list(gad.head)
+  k = 0
+  for i, l in enumerate(lines + [None]):
+    while k < len(where) and where[k] == i:
+      out.extend(gad.stmts[k].split("\n"))
+      k += 1
+    if l is not None:
+      out.append(l)
+  return "\n".join(out) + "\n"
+
+
 def generate(r, n_stmts):
+  import random  # pylint: disable=import-outside-toplevel
+  r2 = random.Random("gadgets:%r" % (r.getstate()[1][:6],))     # derived stream; does not consume from r
   g = Gen(r)
   src = g.program(n_stmts)
-  return src, g.calls
+  gad = Gadgets(r2)
+  if r2.random() < 0.45:
+    for _ in range(r2.randint(1, 2)):
+      gad.truthiness()
+  if r2.random() < 0.35:
+    for _ in range(r2.randint(1, 2)):
+      gad.permuted_calls()
+  if gad.head:
+    src = weave(src, gad, r2)
+  return src, g.calls + gad.calls
 
 
 # ---------------------------------------------------------------------------------------
